@@ -1153,6 +1153,10 @@ def c01(run):
                 "all 16 pairs, slice and reader, explicit and detected; the output is decoded by an independent reader and TLC checks outTree = Expected(inTree) and one "
                 "output digest per (value, pair); distinct by value and spelling")
     data_stage(run, "record-data", _q(run, 40, 1500), "one-hop translations with independent read-back, all pairs")
+    # the same documents through the command line, several inputs of different formats in one invocation:
+    # what reaches stdout is the library's translation of each input under the format its own name selects
+    cli_stage(run, _q(run, "MC_XtCli_c03.cfg", "MC_XtCli_c03_thorough.cfg"), "several inputs in mixed formats on one command line: each is translated under its own source format",
+              tty_maxlen=0, file_maxlen=0)
 
 
 def c06(run):
